@@ -184,15 +184,38 @@ class Checker:
         self.interesting = bool(r.events or r.closed is not None or r.raised)
         self.lays = {k: L.stream_layout(k, d) for k, (d, f) in case.full_streams().items()}
 
-    def close_is_prefix_consistent(self, sched, var):
+    def judge_other_close_code(self, sched, var):
         """`var` closed with another code than the reference.  By design the layer stops at the first error,
         so which of several errors is reported may depend on the interleaving.  The property still demands
-        that the outcome depends only on the bytes delivered so far: deliver exactly the per-stream prefixes
-        `var` had received when it closed, each whole and in sender order; if that closes with the same code,
-        the difference is a legitimate consequence of the order (counted), otherwise it is chunking-dependent."""
-        pc = L.prefix_case(self.case, sched, var.closed_at)
-        o = L.deliver(self.env, pc, L.ref_schedule(pc))
-        return o.closed == var.closed
+        that the outcome depends only on the bytes delivered so far, so `var` is compared with the whole-stream,
+        sender-order delivery of exactly the per-stream prefixes it had received:
+          same close code                                  -> legitimate (counted)
+          the prefixes *before* var's last step already close when delivered whole
+                                                           -> var missed a close: violation (close-missing)
+          the prefixes do not close at all when delivered whole -> violation (close-only-when-split)
+          otherwise (two errors that both need the last step) -> undecidable here, counted.
+        Returns a list of (signature, text)."""
+        env, case = self.env, self.case
+        pc = L.prefix_case(case, sched, var.closed_at)
+        o = L.deliver(env, pc, L.ref_schedule(pc))
+        if o.closed == var.closed:
+            self.res.count("obs_close_code_differs_but_prefix_consistent")
+            return []
+        phi, sti = var.closed_at
+        if sti > 0 or phi > 0:
+            before = (phi, sti - 1) if sti > 0 else (phi - 1, len(sched[phi - 1]) - 1)
+            pb = L.prefix_case(case, sched, before)
+            ob = L.deliver(env, pb, L.ref_schedule(pb), probe=True)
+            if ob.closed is not None:
+                return [("chunk:close-missing:0x%x:%s" % (ob.closed, L.close_diag(pb, ob)),
+                         "the bytes received before this delivery's last step close the connection with 0x%x when each stream is "
+                         "delivered whole, but this delivery had not closed (it later closed with 0x%x)" % (ob.closed, var.closed))]
+        if o.closed is None:
+            diag = L.close_diag(case, L.deliver(env, case, sched, probe=True))
+            return [("chunk:close-only-when-split:0x%x:%s" % (var.closed, diag),
+                     "this delivery closes with 0x%x; the same per-stream prefixes delivered whole in sender order do not close" % var.closed)]
+        self.res.count("obs_close_code_differs_undecided")
+        return []
 
     def check(self, label, sched, sig_extra=None, full_sig=True):
         res = self.res
@@ -204,9 +227,8 @@ class Checker:
             res.count("deliveries_with_blocked_stream")
         diffs = L.classify(self.case, self.ref, var)
         if diffs and diffs[0][0].startswith("chunk:close-"):
-            if var.closed is not None and self.ref.closed is not None and self.close_is_prefix_consistent(sched, var):
-                res.count("obs_close_code_differs_but_prefix_consistent")
-                diffs = []
+            if var.closed is not None and self.ref.closed is not None:
+                diffs = self.judge_other_close_code(sched, var)
             else:
                 # name the mechanism: re-run the delivery that closed with the diagnostic probe on
                 if var.closed is not None:
